@@ -419,6 +419,10 @@ func (sdb *DbSqlite) initJwtKey() error {
 }
 
 func (sdb *DbSqlite) nodePoints(id string, points data.Points) error {
+	if err := checkPointValues(points); err != nil {
+		return err
+	}
+
 	points.Collapse()
 
 	sdb.writeLock.Lock()
@@ -559,6 +563,10 @@ NextPin:
 }
 
 func (sdb *DbSqlite) edgePoints(nodeID, parentID string, points data.Points) error {
+	if err := checkPointValues(points); err != nil {
+		return err
+	}
+
 	points.Collapse()
 
 	if nodeID == parentID {
@@ -807,6 +815,18 @@ NextPin:
 	err = tx.Commit()
 	if err != nil {
 		return err
+	}
+
+	return nil
+}
+
+// checkPointValues refuses values the database cannot represent: SQLite stores
+// NaN as NULL, which cannot be read back into a point.
+func checkPointValues(points data.Points) error {
+	for _, p := range points {
+		if math.IsNaN(p.Value) {
+			return fmt.Errorf("Error: value of point %v:%v is not a number", p.Type, p.Key)
+		}
 	}
 
 	return nil
